@@ -1,10 +1,18 @@
 package run
 
-import "fmt"
+import (
+	"fmt"
+	"strings"
+)
 
 // C04: ordered operators and terminals agree with the in-memory list model (fault-free, single run).
 func init() {
-	Register("C04", Family{Gen: genC04, Exec: execPipe})
+	Register("C04", Family{Gen: genC04, Exec: func(caseText string) string {
+		if strings.HasPrefix(caseText, "L ") { // second part of the family: c04_ext.go
+			return ExecC04Ext(caseText)
+		}
+		return execPipe(caseText)
+	}})
 }
 
 func genC04(c *Ctx) {
@@ -47,4 +55,5 @@ func genC04(c *Ctx) {
 		term := terms[c.Rng.Intn(len(terms))]
 		c.Case(g.nextID >= 1 && len(txt) > 12, txt+" || "+term)
 	}
+	GenC04Ext(c) // lazy package, terminals, collectors, sampling, iterator, remaining sources (c04_ext_gen.go)
 }
